@@ -34,6 +34,8 @@ enum Fault {
     ScanNonString,
     IfNonBoolean,
     ForNonList,
+    UndefinedScopedViaLet,
+    ConflictAcrossIterations,
 }
 
 const FAULTS: &[Fault] = &[
@@ -48,6 +50,8 @@ const FAULTS: &[Fault] = &[
     Fault::ScanNonString,
     Fault::IfNonBoolean,
     Fault::ForNonList,
+    Fault::UndefinedScopedViaLet,
+    Fault::ConflictAcrossIterations,
 ];
 
 impl Fault {
@@ -64,11 +68,13 @@ impl Fault {
             Fault::ScanNonString => "scan_non_string",
             Fault::IfNonBoolean => "if_non_boolean",
             Fault::ForNonList => "for_non_list",
+            Fault::UndefinedScopedViaLet => "undefined_scoped_variable_via_let",
+            Fault::ConflictAcrossIterations => "conflict_across_loop_iterations",
         }
     }
     /// conflicts between two statements
     fn two_sided(&self) -> bool {
-        matches!(self, Fault::ConflictingAttribute | Fault::DuplicateScopedVariable)
+        matches!(self, Fault::ConflictingAttribute | Fault::DuplicateScopedVariable | Fault::ConflictAcrossIterations)
     }
 }
 
@@ -99,17 +105,41 @@ fn fault_stmts(f: Fault, cap: Option<&str>) -> Option<Vec<GStmt>> {
         Fault::ScanNonString => vec![stmt(StmtKind::Scan(GExpr::call("plus", vec![GExpr::Int(424242), GExpr::Int(1)]), vec![GArm { regex: "a".into(), stmts: vec![], loc: Loc::default() }]))],
         Fault::IfNonBoolean => vec![stmt(StmtKind::If(vec![GIfArm { conds: vec![GCond { kind: CondKind::Bool, expr: GExpr::call("plus", vec![GExpr::Int(424242), GExpr::Int(1)]), loc: Loc::default() }], stmts: vec![], loc: Loc::default() }]))],
         Fault::ForNonList => vec![stmt(StmtKind::Let(GVar::u("zq_l"), GExpr::List(vec![GExpr::Int(1)]))), stmt(StmtKind::For(GUVar::new("zq_x"), GExpr::Set(vec![GExpr::var("zq_l")]), vec![]))],
+        Fault::UndefinedScopedViaLet => {
+            let c = cap?;
+            vec![
+                stmt(StmtKind::Let(GVar::u("zq_v"), GExpr::scoped(GExpr::cap(c), "zq_never_defined"))),
+                stmt(StmtKind::Node(GVar::u("zq_n"))),
+                stmt(StmtKind::AttrNode(n(), vec![a("zq_a", GExpr::var("zq_v"))])),
+            ]
+        }
+        Fault::ConflictAcrossIterations => vec![
+            stmt(StmtKind::Node(GVar::u("zq_n"))),
+            stmt(StmtKind::For(
+                GUVar::new("zq_x"),
+                GExpr::List(vec![GExpr::Int(1), GExpr::Int(2), GExpr::Int(3)]),
+                vec![stmt(StmtKind::AttrNode(n(), vec![a("zq_a", GExpr::var("zq_x"))])), stmt(StmtKind::Let(GVar::u("zq_after"), GExpr::var("zq_x")))],
+            )),
+        ],
         Fault::TypeErrorViaLet => vec![stmt(StmtKind::Node(GVar::u("zq_n"))), stmt(StmtKind::Let(GVar::u("zq_v"), GExpr::call("not", vec![GExpr::Int(3)]))), stmt(StmtKind::AttrNode(n(), vec![a("zq_a", GExpr::var("zq_v"))]))],
     })
 }
 
-/// which of the inserted statements is the failing one (index from the end)
-fn failing_offset(f: Fault) -> usize {
+/// (failing, other) positions among the inserted marker statements in preorder
+fn fault_positions(f: Fault) -> (usize, Option<usize>) {
     match f {
-        // the `let` holds the ill-typed call; strict fails there, lazy fails when the thunk is
-        // forced and reports the statement that created it
-        Fault::TypeErrorViaLet => 1,
-        _ => 0,
+        Fault::TypeErrorInCall | Fault::UnknownFunction | Fault::FormatArity | Fault::EdgeOnNonNode => (1, None),
+        Fault::ConflictingAttribute => (2, Some(1)),
+        Fault::DuplicateScopedVariable => (1, Some(0)),
+        Fault::UndefinedEdge => (2, None),
+        // the `let` holds the failing value; strict fails there, lazy when the thunk is forced
+        // (and reports the statement that created it)
+        Fault::TypeErrorViaLet => (1, None),
+        Fault::UndefinedScopedViaLet => (0, None),
+        Fault::ScanNonString | Fault::IfNonBoolean => (0, None),
+        Fault::ForNonList => (1, None),
+        // node, for, attr, let: the attr statement conflicts with itself in the next iteration
+        Fault::ConflictAcrossIterations => (2, Some(2)),
     }
 }
 
@@ -235,8 +265,13 @@ impl Prop for C20 {
                 out.feat("skipped:another_statement_fails_first");
                 continue;
             }
-            let failing_id = markers[markers.len() - 1 - failing_offset(fault)];
-            let other_id = if fault.two_sided() { Some(markers[markers.len() - 2]) } else { None };
+            let (fpos, opos) = fault_positions(fault);
+            if fpos >= markers.len() || opos.map(|o| o >= markers.len()).unwrap_or(false) {
+                out.inconclusive("harness: marker statements not found");
+                continue;
+            }
+            let failing_id = markers[fpos];
+            let other_id = opos.map(|o| markers[o]);
             let stanza_loc = f.stanzas()[*si].loc;
             let roots: BTreeSet<(String, (usize, usize))> = prep.matches[*si].iter().filter_map(|m| m.root).map(|r| (ti.nodes[r].kind.to_string(), ti.nodes[r].start)).collect();
             let enclosing: Vec<Loc> = me.stmt_chain.iter().filter_map(|id| loc_of.get(id).copied()).collect();
@@ -306,7 +341,9 @@ impl Prop for C20 {
                     got.sort();
                     let mut want = vec![fl, ol];
                     want.sort();
-                    if got != want {
+                    let enc: Vec<(usize, usize)> = enclosing.iter().map(|l| (l.row, l.col)).collect();
+                    let each_ok = got.iter().all(|g| *g == fl || *g == ol || enc.contains(g));
+                    if got != want && !each_ok {
                         out.violation(&format!("C20:conflict-names-wrong-statements:{}", fault.name()), &format!("conflict names {:?}, the two statements are at {:?}", got, want), case());
                         return;
                     }
